@@ -5,7 +5,8 @@ Confirm round-2 sub-agent output under /tmp/wt2/out/<ID>/{m1..3,b1..3}:
  benign   -> /verif/seeded_benign/<ID>-bK/ (tests pass with patch, equiv.py prints the same on both trees)
 """
 import json, os, shutil, subprocess, sys, glob
-OUT = '/tmp/wt2/out'
+OUT = os.environ.get('ROUND_OUT', '/tmp/wt2/out')
+RTAG = os.environ.get('ROUND_TAG', 'r2')
 only = sys.argv[1:]
 
 def sh(cmd, cwd=None, timeout=900):
@@ -24,7 +25,7 @@ for d in sorted(glob.glob(f'{OUT}/C*/[mb]*')):
     if only and pid not in only:
         continue
     kind = 'mutant' if k.startswith('m') else 'benign'
-    name = f'{pid}-r2{k}' if kind == 'mutant' else f'{pid}-{k}'
+    name = f'{pid}-{RTAG}{k}' if kind == 'mutant' else (f'{pid}-{k}' if RTAG == 'r2' else f'{pid}-{RTAG}{k}')
     dest = f'/verif/seeded/{name}' if kind == 'mutant' else f'/verif/seeded_benign/{name}'
     if os.path.exists(f'{dest}/meta.json'):
         continue
@@ -57,7 +58,7 @@ for d in sorted(glob.glob(f'{OUT}/C*/[mb]*')):
             notes = {}
             try: notes = json.load(open(f'{d}/notes.json'))
             except Exception: pass
-            meta = {'property': pid, 'kind': kind, 'round': 2,
+            meta = {'property': pid, 'kind': kind, 'round': int(RTAG[1:]),
                     ('breaks' if kind == 'mutant' else 'refactor'): notes.get('summary', ''),
                     ('needs' if kind == 'mutant' else 'why_equivalent'): notes.get('needs', notes.get('why_equivalent', '')),
                     'files': notes.get('files', []),
